@@ -99,6 +99,7 @@ theorem static_slot_per_class (h : Hier) (s : St) (a : Action) (i : Nat) (hi : i
     | some p =>
       refine ⟨by simp [addAt_length], ?_⟩
       simpa using addAt_getD s.made 0 100 i hi
+  | readRoot v => simp only [step]; cases lookupVar s v <;> simp
   | who v => simp only [step]; cases lookupVar s v <;> simp
   | call v => simp only [step]; cases lookupVar s v <;> simp
   | getf v => simp only [step]; cases lookupVar s v <;> simp
